@@ -217,7 +217,7 @@ def _confirm_cex(chk, pid, base, task, rr, signature):
     i = rr['i']
     if res['error'] or res['native'][i] != res['spec'][i]:
         chk.obligation(base, 'E-MIR/fork', 'violated')
-        chk.violation(base, signature, {'task': {k: v for k, v in task.items() if k != 'phis'}, 'formulas': [S.show(f) for f in task['phis']], 'position': i, 'witness': w, 'native': res},
+        chk.violation(base, signature, {'task': {k: v for k, v in task.items() if k != 'phis'}, 'phis': task['phis'], 'formulas': [S.show(f) for f in task['phis']], 'position': i, 'witness': w, 'native': res},
                       f"position {i} ({S.show(phi)}): native result {res['native'][i] if not res['error'] else res['error']} but explicit semantics {res['spec'][i]} on the witness network")
     else:
         print(f'  non-reproducing E-MIR counterexample: {base}: {res}', flush=True)
